@@ -594,8 +594,8 @@ class WkScenario:
     def key(self, op, a, b, attrs, omitAll=False, random=True):
         self.L.append("%s %d %d %d %s%s" % (op, a, b, 1 if omitAll else 0, self.spec(attrs), (" " + self.stream(400)) if random else ""))
         self.nK += 1; return self.nK - 1
-    def adjustnd(self, sk, parent, fr, to):
-        self.L.append("wk_adjustnd %d %d 0 %s 0 %s" % (sk, parent, self.spec(fr), self.spec(to))); self.nK += 1; return self.nK - 1
+    def adjustnd(self, sk, parent, fr, to, from_omit=False, to_omit=False):
+        self.L.append("wk_adjustnd %d %d %d %s %d %s" % (sk, parent, 1 if from_omit else 0, self.spec(fr), 1 if to_omit else 0, self.spec(to))); self.nK += 1; return self.nK - 1
     def pre(self, p, attrs):
         self.L.append("wk_precompute %d 0 %s" % (p, self.spec(attrs))); self.nR += 1; return self.nR - 1
     def adjustpre(self, rr, p, fr, to):
@@ -722,6 +722,9 @@ def gen_wkdibe(rng, n, tier):
         kfrom = S.key("wk_ndqualify", p0, k, fa, random=False)
         kadj = S.adjustnd(kfrom, k, fa, ta)
         tb = pick(); S.adjustnd(kadj, k, ta, tb)
+        # omit-all-unless-present on either list: the adjusted key must still equal qualifying the parent directly
+        tc = pick(); S.adjustnd(kadj, k, ta, tc, to_omit=True)
+        kfo = S.key("wk_ndqualify", p0, k, fa, omitAll=True, random=False); S.adjustnd(kfo, k, fa, ta, from_omit=True)
     # resampling
     for (k, pat) in klist[:3]:
         fixed = [(i, vals[i], False) for i, ch in enumerate(pat) if ch == "x"]
